@@ -836,6 +836,31 @@ func gaugePollCase(idx int64, r *rand.Rand) {
 		}
 		return -5, false
 	}
+	// late: two of the three gauges are registered only after the registry was started and has polled at least twice
+	late := r.IntN(2) == 0
+	lateNeverPolled := false
+	register := func(mr core.MetricRegistry) {
+		mr.RegisterGauge("gA", supA)
+		if !late {
+			mr.RegisterGauge("gB", supB)
+			mr.RegisterGauge("gC", supC)
+		}
+		mr.Start()
+		if late {
+			for i := 0; i < 40000 && nA.Load() < 2; i++ {
+				time.Sleep(poll)
+			}
+			mr.RegisterGauge("gB", supB)
+			mr.RegisterGauge("gC", supC)
+			rt.Count("gauges_registered_after_start", 2)
+			base := nA.Load()
+			for i := 0; i < 40000 && nA.Load() < base+40 && (nB.Load() == 0 || nC.Load() == 0); i++ {
+				time.Sleep(poll)
+			}
+			// the early gauge was polled 40 more times (a logical clock): the late ones must have been polled as well
+			lateNeverPolled = nA.Load() >= base+40 && (nB.Load() == 0 || nC.Load() == 0)
+		}
+	}
 	waitPolls := func() bool {
 		for i := 0; i < 40000 && (nA.Load() < 3 || nB.Load() < 3 || nC.Load() < okCalls+2); i++ {
 			time.Sleep(poll)
@@ -855,10 +880,12 @@ func gaugePollCase(idx int64, r *rand.Rand) {
 		if !strings.HasSuffix(want, ".") {
 			want += "."
 		}
-		mr.RegisterGauge("gA", supA)
-		mr.RegisterGauge("gB", supB)
-		mr.RegisterGauge("gC", supC)
-		mr.Start()
+		register(mr)
+		if lateNeverPolled {
+			mr.Stop()
+			rt.Violation("C20/gometrics/gauge-registered-after-start-never-polled", idx, rt.J{"polls_of_the_early_gauge": nA.Load(), "polls_of_the_late_gauges": []int64{nB.Load(), nC.Load()}, "poll_period": poll.String()})
+			return
+		}
 		okW := waitPolls()
 		mr.Stop()
 		if !okW {
@@ -906,10 +933,12 @@ func gaugePollCase(idx int64, r *rand.Rand) {
 	if !strings.HasSuffix(want, ".") {
 		want += "."
 	}
-	mr.RegisterGauge("gA", supA)
-	mr.RegisterGauge("gB", supB)
-	mr.RegisterGauge("gC", supC)
-	mr.Start()
+	register(mr)
+	if lateNeverPolled {
+		mr.Stop()
+		rt.Violation("C20/datadog/gauge-registered-after-start-never-polled", idx, rt.J{"polls_of_the_early_gauge": nA.Load(), "polls_of_the_late_gauges": []int64{nB.Load(), nC.Load()}, "poll_period": poll.String()})
+		return
+	}
 	okW := waitPolls()
 	mr.Stop()
 	cl.Flush()
